@@ -414,7 +414,21 @@ class NPShim:
         return sym_abs(x)
 
     def sum(self, x, *a, **k):
+        if isinstance(x, A) and (a or k):
+            return _np_axis_reduce(x, "sum", *a, **k)
         return x.sum() if isinstance(x, A) else real_np.sum(x, *a, **k)
+
+    def min(self, x, *a, **k):
+        return _np_axis_reduce(x, "min", *a, **k) if isinstance(x, A) else real_np.min(x, *a, **k)
+
+    def max(self, x, *a, **k):
+        return _np_axis_reduce(x, "max", *a, **k) if isinstance(x, A) else real_np.max(x, *a, **k)
+
+    def mean(self, x, *a, **k):
+        return _np_axis_reduce(x, "mean", *a, **k) if isinstance(x, A) else real_np.mean(x, *a, **k)
+
+    amin = min
+    amax = max
 
     def nansum(self, x, *a, **k):
         if isinstance(x, FakeSeries):
@@ -887,6 +901,18 @@ class LIndex(FakeIndex):
     def is_monotonic_increasing(self):
         return all(a <= b for a, b in zip(self.labels, self.labels[1:]))
 
+    @property
+    def is_monotonic_decreasing(self):
+        return all(a >= b for a, b in zip(self.labels, self.labels[1:]))
+
+    @property
+    def is_unique(self):
+        return len(set(self.labels)) == len(self.labels)
+
+    @property
+    def has_duplicates(self):
+        return not self.is_unique
+
     def argsort(self, *a, **k):
         return A([int(i) for i in sorted(range(self.n), key=lambda i: self.labels[i])], "int64")
 
@@ -984,7 +1010,19 @@ class FakeSeries(_S):
 
     def _bin(self, o, f):
         if isinstance(o, FakeSeries) and isinstance(o.index, LIndex) and isinstance(self.index, LIndex) and o.index.labels != self.index.labels:
-            raise OutsideModel("arithmetic between Series with different indexes (label alignment)")
+            # pandas aligns on the union of the labels (sorted when the labels can be compared), missing entries are NaN
+            la, lb = list(self.index.labels), list(o.index.labels)
+            if len(set(la)) != len(la) or len(set(lb)) != len(lb) or self.arr.dtype.kind not in "fiu" or o.arr.dtype.kind not in "fiu":
+                raise OutsideModel("arithmetic between Series with different, non-unique or non-numeric indexes (label alignment)")
+            union = la + [x for x in lb if x not in la]
+            try:
+                union = sorted(union)
+            except TypeError:
+                pass
+            nan = SF.of(float("nan"))
+            ca = [SF.of(self.arr.cells[la.index(x)]) if x in la else nan for x in union]
+            cb = [SF.of(o.arr.cells[lb.index(x)]) if x in lb else nan for x in union]
+            return FakeSeries(f(A(ca, "float64"), A(cb, "float64")), LIndex(union, self.index.name), name=self.name if self.name == o.name else None)
         oa = o.arr if isinstance(o, FakeSeries) else o
         return FakeSeries(f(self.arr, oa), self.index, name=self.name)
 
@@ -1163,6 +1201,8 @@ class _Loc(_ILoc):
             raise OutsideModel(".loc assignment to an existing label")
         new_index = LIndex(list(o.index.labels) + [label], o.index.name, o.index.categorical)
         if isinstance(o, FakeFrame):
+            if isinstance(value, A) and value.ndim == 1 and len(value) == len(o.columns):
+                value = FakeSeries(value, LIndex(list(o.columns)))          # positional assignment of an array row
             if not isinstance(value, FakeSeries) or not isinstance(value.index, LIndex) or list(value.index.labels) != list(o.columns):
                 raise OutsideModel("row assignment needs a Series indexed by the column names")
             for j, c in enumerate(o.columns):
@@ -1193,7 +1233,73 @@ class _Loc(_ILoc):
         return o._rows(_select(len(o), key))
 
 
+def _np_plain_reduce(cells, func, kind):
+    """NumPy's NON-skipping reductions: a NaN anywhere makes the result NaN (sum, mean, min, max alike)"""
+    from .values import isnan as _isnan, total
+    if not cells:
+        if func == "sum":
+            return 0.0 if kind == "f" else 0
+        if func == "mean":
+            return SF.of(float("nan"))           # numpy: RuntimeWarning, nan
+        raise ValueError(f"zero-size array to reduction operation {'minimum' if func == 'min' else 'maximum'} which has no identity")
+    if kind != "f":
+        if func == "sum":
+            return total(list(cells), 0)
+        if func == "mean":
+            return fdiv(SF.of(total(list(cells), 0)), SF.of(len(cells)))
+        acc = cells[0]
+        for c in cells[1:]:
+            acc = ite(c < acc, c, acc) if func == "min" else ite(acc < c, c, acc)
+        return acc
+    sfs = [SF.of(c) for c in cells]
+    anynan = b_or(*[c.nan for c in sfs])
+    if func in ("sum", "mean"):
+        v = sfs[0].v
+        for c in sfs[1:]:
+            v = v + c.v
+        if func == "mean":
+            v = v / len(sfs)
+        return SF(anynan, v)
+    v = sfs[0].v
+    for c in sfs[1:]:
+        v = ite(c.v < v, c.v, v) if func == "min" else ite(v < c.v, c.v, v)
+    return SF(anynan, v)
+
+
+def _np_axis_reduce(x, func, axis=None, **kw):
+    if kw:
+        raise Unsupported(f"np.{func} with options {sorted(kw)}")
+    if any(isinstance(c, SF) and (c.pinf is not False or c.ninf is not False) for c in x.cells):
+        raise Unsupported(f"np.{func} over infinities")
+    if x.ndim == 1:
+        if axis not in (None, 0, -1):
+            raise Unsupported("axis out of range")
+        return _np_plain_reduce(list(x.cells), func, x.dtype.kind)
+    if x.ndim == 2 and axis == 0:
+        n, m = x.shape
+        dt = x.dtype if func in ("min", "max") or (func == "sum" and x.dtype.kind == "f") else real_np.dtype("float64" if func == "mean" else "int64")
+        return A([_np_plain_reduce([x.cells[i * m + j] for i in range(n)], func, x.dtype.kind) for j in range(m)], dt)
+    raise Unsupported(f"np.{func} with axis={axis} on a {x.ndim}-D array")
+
+
 class FakeFrame(_S):
+    def to_numpy(self, *a, **k):
+        cols = []
+        for c in self.columns:
+            v = self.data[c]
+            cols.append(v.arr if isinstance(v, FakeSeries) else v)
+        n = len(self)
+        kinds = {c.dtype.kind for c in cols}
+        dt = cols[0].dtype if len({c.dtype for c in cols}) == 1 else real_np.dtype("float64")
+        if len(kinds) > 1 and not kinds <= set("fiu"):
+            raise OutsideModel("DataFrame.to_numpy with mixed kinds")
+        cells = []
+        for i in range(n):
+            for c in cols:
+                x = c.cells[i]
+                cells.append(SF.of(x) if dt.kind == "f" and not isinstance(x, SF) else x)
+        return A(cells, dt, (n, len(cols)))
+
     def __init__(self, data=None, copy=None, index=None):
         self.data = dict(data)
         self.columns = list(self.data)
